@@ -14,12 +14,12 @@ import (
 func init() {
 	register(&Property{
 		ID:          "C26",
-		Roots:       []string{"daemon"},
+		Roots:       []string{"daemon", "overlord/auth"},
 		Technique:   "guarded-sink reachability on the SSA CFG of ServeHTTP and every access checker + who-may-read/write of the handler fields + composite-literal table check",
 		Explanation: "Structural necessary conditions for 'REST requests are served only to allowed callers': (R1) in Command.ServeHTTP the dynamic call of the ResponseFunc is cut from the entry by CheckAccess(...)==nil and by a usable ucrednetGet result, the user checked is userFromRequest(state, r) of the very request, and the handler/access phi pairs GET with ReadAccess and PUT/POST with WriteAccess; (R2) the handler fields are read nowhere else and written only by package initialisation; (R3) every Command literal sets the access checker its methods need; (R4) each access checker returns nil only across its declared gates (socket, uid, user, polkit, active interface connection); (R5) the peer-credential parser only succeeds with both pid and uid parsed, and the address regexp and the formatter share one literal skeleton with separator-free classes.",
 		NotDecided:  "polkit itself; cgroup-based identification of the calling snap; the net/http routing layer.",
 		Assumptions: []string{"function variables used for mocking (ucrednetGet, checkPolkitAction, requireInterfaceApiAccess, error responders) are only reassigned by test code; R4 verifies there is no non-test store"},
-		Run:         runC26,
+		Run:         func(c *Ctx) { runC26(c); runC26x(c) },
 	})
 }
 
